@@ -6,11 +6,19 @@ plan (what the resolver hands over after a limit tripped) behaves exactly like a
 prunes nothing; composed with the pipeline decision of `Model/Limits.lean`, the outcome of a run does
 not depend on the caps.  The remaining hypothesis of the composition is C03 (the plan the passes
 build below the limits does not change the outcome) — that is `Props/C03.lean`'s subject.
+
+For the SHIPPED PIPELINE (`Model/Pipeline.lean`) the composition is carried out: `c18_pipeline_front`
+(rejection, program and facts do not depend on the caps), `c18_pipeline_warnings` (the warnings differ
+only by the resource-limit warning / the passes' warnings), `c18_pipeline` and `c18_pipeline_tripped`
+(any two cap settings run a text to the same observation, for all sufficiently large fuel) — with C03's
+`c03_pipeline` as the soundness of the plan, under its side conditions `PipelineSide` on the front
+end's result (annotated program and facts only).
 -/
 import NaijaVerif.Model.Limits
 import NaijaVerif.Lemmas.LimitsRun
 import NaijaVerif.Model.AnalysisEval
 import NaijaVerif.Props.C18
+import NaijaVerif.Props.C03
 
 namespace NaijaVerif.Limits
 open NaijaVerif NaijaVerif.Eval
@@ -72,6 +80,117 @@ theorem aeval_run_same_across_limits {V : Type} (P : AEval.Prims V) (fuel : Nat)
     (aeval_run_plan_none_eq_empty P fuel root)
     (hSound.trans (aeval_run_plan_none_eq_empty P fuel root)) caps caps' c sp ws
 
+/-! ### The shipped pipeline: the caps never change what a text does -/
+
+section pipeline
+open NaijaVerif.Props.C06Accepted (NumLitsParse parsed)
+open NaijaVerif.Bridge (isNumLexeme)
+open NaijaVerif.PipelinePrune
+open NaijaVerif.C03 (PipelineSide evalObs rtCode)
+
+/-- **Rejection does not depend on the caps**: a text rejected (lexical / syntax / semantic
+diagnostics) under some caps is rejected with the same diagnostics under all caps, and a text accepted
+under some caps is accepted under all, with the same annotated program and the same facts. -/
+theorem c18_pipeline_front (caps caps' : Caps) (src : Bytes) :
+    (∀ e, Pipeline.frontEnd caps src = .error e → Pipeline.frontEnd caps' src = .error e) ∧
+    (∀ a, Pipeline.frontEnd caps src = .ok a →
+      ∃ a', Pipeline.frontEnd caps' src = .ok a' ∧ a'.root = a.root ∧ a'.facts = a.facts) := by
+  refine ⟨fun e h => frontEnd_error_caps caps' h, fun a h => ?_⟩
+  obtain ⟨a', ha'⟩ := frontEnd_ok_caps caps' h
+  obtain ⟨h1, h2, _⟩ := frontEnd_shape h
+  obtain ⟨h1', h2', _⟩ := frontEnd_shape ha'
+  exact ⟨a', ha', h1'.trans h1.symm, h2'.trans h2.symm⟩
+
+/-- **The warnings differ only by the resource-limit warning**: under caps that trip, the analysis
+stage hands over no plan and exactly the one resource-limit warning (on the program's span); under caps
+that do not, the plan of the analyses and exactly their warnings, none of which is a resource-limit
+warning.  Two cap settings on the same side of the preflight give the same warnings and the same plan. -/
+theorem c18_pipeline_warnings (caps caps' : Caps) (src : Bytes) (a a' : Pipeline.Accepted)
+    (ha : Pipeline.frontEnd caps src = .ok a) (ha' : Pipeline.frontEnd caps' src = .ok a') :
+    (tripped caps src = true → a.plan = none ∧ a.warnings = [limitWarning (parsed src).span]) ∧
+    (tripped caps src = false → a.plan = some (passPlan a.root a.facts) ∧
+      a.warnings = passWarnings a.root a.facts ∧ ∀ d ∈ a.warnings, d.kind ≠ .analysisLimit) ∧
+    (tripped caps src = tripped caps' src → a'.plan = a.plan ∧ a'.warnings = a.warnings) := by
+  obtain ⟨h1, h2, _, hc⟩ := frontEnd_shape ha
+  obtain ⟨h1', h2', _, hc'⟩ := frontEnd_shape ha'
+  have hr : a'.root = a.root := h1'.trans h1.symm
+  have hf : a'.facts = a.facts := h2'.trans h2.symm
+  have hkinds : ∀ d ∈ passWarnings a.root a.facts, d.kind ≠ .analysisLimit := by
+    intro d hd
+    simp only [passWarnings, List.mem_map] at hd
+    obtain ⟨w, _, rfl⟩ := hd
+    simp only [Pipeline.warnDiag]
+    cases w.kind <;> simp [Analysis.WKind.diag]
+  refine ⟨fun ht => ?_, fun ht => ?_, fun heq => ?_⟩
+  · rcases hc with ⟨h, _⟩ | ⟨_, hp, hw⟩
+    · rw [ht] at h; cases h
+    · exact ⟨hp, hw⟩
+  · rcases hc with ⟨_, hp, hw⟩ | ⟨h, _⟩
+    · exact ⟨hp, hw, by rw [hw]; exact hkinds⟩
+    · rw [ht] at h; cases h
+  · rcases hc with ⟨ht, hp, hw⟩ | ⟨ht, hp, hw⟩ <;> rcases hc' with ⟨ht', hp', hw'⟩ | ⟨ht', hp', hw'⟩
+    · rw [hp, hw, hp', hw', hr, hf]; exact ⟨rfl, rfl⟩
+    · rw [ht, ht'] at heq; cases heq
+    · rw [ht, ht'] at heq; cases heq
+    · rw [hp, hw, hp', hw']; exact ⟨rfl, rfl⟩
+
+/-- **C18 for the shipped pipeline** (`Pipeline.runSource`: lex → parse → resolve → limit preflight →
+analyses → run with the plan handed over).  Take any two cap settings — say the defaults and caps that
+trip.  If the text is accepted, the side conditions of C03 hold of the front end's result
+(`PipelineSide`: on the annotated program and the facts, which do not depend on the caps), and the
+run of the program WITHOUT a plan ends within its fuel with the observation `o` (printed values; normal
+ending or a runtime error other than `Undefined variable`), then under BOTH cap settings the pipeline
+runs the text to that same observation `o`, for all sufficiently large fuel: exceeding an analysis
+budget disables the optimisation and nothing else. -/
+theorem c18_pipeline (hnum : NumLitsParse N isNumLexeme) (caps caps' : Caps) (cfg : RunCfg)
+    (hl : cfg.lookup = .dynamic) (hp : cfg.panics = false) (hin : cfg.input = []) (src : Bytes)
+    (a : Pipeline.Accepted) (ha : Pipeline.frontEnd caps src = .ok a) (hside : PipelineSide a)
+    (f : Nat) (o : List (Value N) × Nat)
+    (hrun : evalObs (Eval.run (N := N) { cfg with plan := none } f a.root) = some o)
+    (hund : o.2 ≠ 10 + rtCode .undefinedVariable) :
+    ∃ f', ∀ g, f' ≤ g →
+      ranObs (Pipeline.runSource (N := N) caps cfg g src) = some o ∧
+      ranObs (Pipeline.runSource (N := N) caps' cfg g src) = some o := by
+  obtain ⟨a', ha', hr, hf⟩ := (c18_pipeline_front caps caps' src).2 a ha
+  have hside' : PipelineSide a' := by
+    unfold PipelineSide at hside ⊢; rw [hr, hf]; exact hside
+  obtain ⟨f1, h1⟩ := C03.c03_pipeline hnum caps cfg hl hp hin src a ha hside f o hrun hund
+  obtain ⟨f2, h2⟩ := C03.c03_pipeline hnum caps' cfg hl hp hin src a' ha' hside' f o (by rw [hr]; exact hrun) hund
+  refine ⟨max f1 f2, fun g hg => ⟨?_, ?_⟩⟩
+  · rw [runSource_ok cfg g ha]; exact h1 g (by omega)
+  · rw [runSource_ok cfg g ha']; exact h2 g (by omega)
+
+/-- The headline reading: what the text does under caps that TRIP (no plan, no optimisation) is what it
+does under any other caps (in particular caps under which the analyses run and prune). -/
+theorem c18_pipeline_tripped (hnum : NumLitsParse N isNumLexeme) (caps caps' : Caps) (cfg : RunCfg)
+    (hl : cfg.lookup = .dynamic) (hp : cfg.panics = false) (hin : cfg.input = []) (src : Bytes)
+    (a : Pipeline.Accepted) (ha : Pipeline.frontEnd caps src = .ok a) (hside : PipelineSide a)
+    (ht : tripped caps src = true) (f : Nat) (o : List (Value N) × Nat)
+    (hrun : ranObs (Pipeline.runSource (N := N) caps cfg f src) = some o)
+    (hund : o.2 ≠ 10 + rtCode .undefinedVariable) :
+    ∃ f', ∀ g, f' ≤ g → ranObs (Pipeline.runSource (N := N) caps' cfg g src) = some o := by
+  have hplan := ((c18_pipeline_warnings caps caps src a a ha ha).1 ht).1
+  rw [runSource_ok cfg f ha, hplan] at hrun
+  obtain ⟨f', h⟩ := c18_pipeline hnum caps caps' cfg hl hp hin src a ha hside f o hrun hund
+  exact ⟨f', fun g hg => (h g hg).2⟩
+
+/-- **C18 for the shipped pipeline, with the proved side conditions discharged**: as `c18_pipeline`, but
+the only hypothesis about the front end's result that is left is `structRest2B a.root a.facts` — the
+part of C03's `structOkB` not proved of the resolver model (`C03.pipelineSide_of_rest`). -/
+theorem c18_pipeline_rest (hnum : NumLitsParse N isNumLexeme) (caps caps' : Caps) (cfg : RunCfg)
+    (hl : cfg.lookup = .dynamic) (hp : cfg.panics = false) (hin : cfg.input = []) (src : Bytes)
+    (a : Pipeline.Accepted) (ha : Pipeline.frontEnd caps src = .ok a)
+    (hrest : ResolveStruct.structRest2B a.root a.facts = true)
+    (f : Nat) (o : List (Value N) × Nat)
+    (hrun : evalObs (Eval.run (N := N) { cfg with plan := none } f a.root) = some o)
+    (hund : o.2 ≠ 10 + rtCode .undefinedVariable) :
+    ∃ f', ∀ g, f' ≤ g →
+      ranObs (Pipeline.runSource (N := N) caps cfg g src) = some o ∧
+      ranObs (Pipeline.runSource (N := N) caps' cfg g src) = some o :=
+  c18_pipeline hnum caps caps' cfg hl hp hin src a ha (C03.pipelineSide_of_rest ha hrest) f o hrun hund
+
+end pipeline
+
 /-! ### Non-vacuity -/
 
 -- a plan that does name a statement prunes it: `NoPrune` is a real restriction
@@ -80,5 +199,55 @@ example : Plan.prunesFn (some { fns := [1] }) (some 1) = true := by decide
 -- and both plans of the theorem satisfy it
 example (cfg : RunCfg) : NoPrune { cfg with plan := none } ∧ NoPrune { cfg with plan := some {} } :=
   ⟨noPrune_none cfg, noPrune_empty cfg⟩
+
+/-! ### Non-vacuity of the pipeline theorems -/
+
+section pipeline_examples
+open NaijaVerif.Props.C06Accepted (parsed trivialNum ranSummary)
+open NaijaVerif.PipelinePrune
+open NaijaVerif.C03 (PipelineSide evalObs rtCode)
+
+/-- The text `make x get 1  x get 2  x get 3  shout(x)` through the whole pipeline, under caps nothing
+trips on and under caps with `maxStatements = 3`: below the limits the plan removes statement 1 and
+the passes warn twice (two dead stores); above, no plan and the one resource-limit warning; the side
+conditions of `c18_pipeline` hold of both results; and with the toy numbers both runs print `3` and end
+normally. -/
+example :
+    (Pipeline.frontEnd roomyCaps prunedText).toOption.map (fun a => (a.plan.map (·.stmts), decide (PipelineSide a))) =
+      some (some [1], true) ∧
+    (Pipeline.frontEnd roomyCaps prunedText).toOption.map (fun a => a.warnings.map (·.kind)) =
+      some [DiagKind.unusedAssignment, DiagKind.unusedAssignment] ∧
+    (Pipeline.frontEnd tightCaps prunedText).toOption.map (fun a => (a.plan.map (·.stmts), decide (PipelineSide a))) =
+      some (none, true) ∧
+    (Pipeline.frontEnd tightCaps prunedText).toOption.map (fun a => a.warnings.map (·.kind)) =
+      some [DiagKind.analysisLimit] ∧
+    tripped roomyCaps prunedText = false ∧ tripped tightCaps prunedText = true ∧
+    ranSummary (Pipeline.runSource roomyCaps Toy.cfg 30 prunedText) = some (2, [b!"3"], 0) ∧
+    ranSummary (Pipeline.runSource tightCaps Toy.cfg 30 prunedText) = some (1, [b!"3"], 0) := by
+  decide +kernel
+
+/-- An instance of `c18_pipeline` on that text (numbers: `trivialNum`, for which `NumLitsParse` holds):
+every hypothesis is discharged, and the two cap settings are on different sides of the preflight. -/
+example : ∃ o f', ∀ g, f' ≤ g →
+    ranObs (@Pipeline.runSource Unit trivialNum roomyCaps Toy.cfg g prunedText) = some o ∧
+    ranObs (@Pipeline.runSource Unit trivialNum tightCaps Toy.cfg g prunedText) = some o := by
+  cases h : Pipeline.frontEnd roomyCaps prunedText with
+  | error e =>
+    have : (Pipeline.frontEnd roomyCaps prunedText).toOption.isSome = true := by decide +kernel
+    rw [h] at this; cases this
+  | ok a =>
+    have hside : PipelineSide a := by
+      have : (Pipeline.frontEnd roomyCaps prunedText).toOption.all (fun a => decide (PipelineSide a)) = true := by
+        decide +kernel
+      rw [h] at this; simpa [Except.toOption] using this
+    have hroot := (frontEnd_shape h).1
+    obtain ⟨o, ho, ho2⟩ : ∃ o, evalObs (@Eval.run Unit trivialNum { Toy.cfg with plan := none } 30 a.root) = some o ∧ o.2 = 0 := by
+      rw [hroot]
+      exact evalObs_endsOk (by decide +kernel)
+    obtain ⟨f', hf'⟩ := @c18_pipeline Unit trivialNum (fun _ _ => rfl) roomyCaps tightCaps Toy.cfg rfl rfl rfl prunedText a h hside
+      30 o ho (by rw [ho2]; decide)
+    exact ⟨o, f', hf'⟩
+
+end pipeline_examples
 
 end NaijaVerif.Limits
